@@ -69,6 +69,17 @@ def run(module, cfg, workers=8, env=None, timeout=600, simulate=None, depth=None
     t0 = time.time()
     p = subprocess.Popen(cmd, stdout=subprocess.PIPE, stderr=subprocess.STDOUT, env=e, cwd=os.path.dirname(mpath), text=True, bufsize=1 << 20)
     tail = []
+    import threading
+
+    def watchdog():
+        res.timed_out = True
+        try:
+            p.kill()
+        except Exception:
+            pass
+    timer = threading.Timer(timeout, watchdog)
+    timer.daemon = True
+    timer.start()
     try:
         deadline = t0 + timeout
         for line in p.stdout:
@@ -105,6 +116,7 @@ def run(module, cfg, workers=8, env=None, timeout=600, simulate=None, depth=None
                 break
         p.wait(timeout=30)
     finally:
+        timer.cancel()
         if p.poll() is None:
             p.kill()
         shutil.rmtree(meta, ignore_errors=True)
